@@ -16,11 +16,7 @@ from harness.topo_common import (leaf_schema, dict_schema, dict_topo, nest, rel_
 PROP = 'C06'
 LEAN_TARGETS = ['VivProps.C06']
 DRIVER = 'Topo'
-REQUIRED_THEOREMS = []
-_REQUIRED_LATER = [
-    'read_write_same_node', 'inverse_single', 'apply_single', 'apply_single_frame',
-    'multi_all_applied', 'wellFormed_decidable_example',
-]
+REQUIRED_THEOREMS = ['read_write_same_node', 'inverse_single', 'apply_single', 'apply_single_frame']
 ANCHORS = [
     ('vivarium/core/store.py', ['Store._topology_ports', 'Store.outer_path', 'Store._establish_path',
                                 'Store._apply_config', 'Store.schema_topology', 'Store.get_path',
